@@ -19,6 +19,8 @@ import (
 	"strconv"
 	"strings"
 
+	"github.com/obolnetwork/charon/core/qbft"
+
 	"verifharness/hx"
 )
 
@@ -47,6 +49,11 @@ func execOp(cl **cluster, op string) ([]out, bool) {
 		off, _ := strconv.ParseInt(f[3], 10, 64)
 		*cl = &cluster{n: n, fifo: fifo, off: off, nodes: map[int64]*node{}}
 		return nil, true
+	case "qf":
+		// T-quorum: the real Definition.Quorum()/Faulty() for a cluster size
+		n, _ := strconv.Atoi(f[1])
+		d := qbft.Definition[int64, int64, int64]{Nodes: n}
+		return []out{{Kind: "Q", A: []int64{int64(d.Quorum()), int64(d.Faulty())}}}, false
 	case "start":
 		p, _ := strconv.ParseInt(f[1], 10, 64)
 		if old, ok := (*cl).nodes[p]; ok {
@@ -107,6 +114,11 @@ func main() {
 	_ = do
 	rng := hx.NewRng(a.Seed)
 	g := &gen{rng: rng, run: run, tier: a.Tier}
+	// T-quorum: Quorum()/Faulty() of the real Definition against the model's integer formulas
+	for n := 1; n <= 130; n++ {
+		os, _ := execOp(&cl, fmt.Sprintf("qf %d", n))
+		run.Op(fmt.Sprintf("qf %d ;; %s", n, showOuts(os)), "ok")
+	}
 	for run.NOps < a.N {
 		if rng.Chance(1, 4) {
 			g.syncEpisode(&cl)
@@ -155,6 +167,8 @@ func (m *monitor) afterOp(op string, os []out) {
 	f := strings.Fields(op)
 	p, _ := strconv.ParseInt(f[1], 10, 64)
 	switch f[0] {
+	case "qf":
+		return
 	case "start":
 		m.started[p] = true
 	case "input":
